@@ -33,22 +33,24 @@ def renderRow : List Col → List Str → Str
   | c :: cs, t :: ts => renderField c t ++ renderRow cs ts
   | _, _ => []
 
-def headerGo : List Str → Str
+def headerGo (w : Nat) : List Str → Str
   | [] => []
   | [n] => n
-  | n :: m :: rest => padRight 13 n ++ headerGo (m :: rest)
+  | n :: m :: rest => padRight w n ++ headerGo w (m :: rest)
 
-/-- One space, every name but the last left justified in 13 characters, the last name. -/
-def renderHeader (names : List Str) : Str := ' ' :: headerGo names
+/-- One space, every name but the last left justified in `w` characters (13 in ext/phi/cov files,
+    12 in default $TABLE output), the last name. -/
+def renderHeader (w : Nat) (names : List Str) : Str := ' ' :: headerGo w names
 
 structure RefTable where
+  hw : Nat                 -- header field width
   names : List Str
   cols : List Col
   rows : List (List Cell)
   deriving DecidableEq, Repr
 
 def renderBody (t : RefTable) : List Str :=
-  renderHeader t.names :: t.rows.map (fun r => renderRow t.cols (r.map renderCell))
+  renderHeader t.hw t.names :: t.rows.map (fun r => renderRow t.cols (r.map renderCell))
 
 /-! ### when a table "fits" its format (decidable) -/
 
@@ -64,23 +66,22 @@ def fitsRow : List Col → List Str → Bool
   | c :: cs, t :: ts => fitsField c t && fitsRow cs ts
   | _, _ => false
 
-def headerOk : List Str → Bool
+def headerOk (w : Nat) : List Str → Bool
   | [] => false
   | [n] => isToken n
-  | n :: m :: rest => isToken n && decide (n.length < 13) && headerOk (m :: rest)
+  | n :: m :: rest => isToken n && decide (n.length < w) && headerOk w (m :: rest)
 
 def cellOk : Cell → Bool
-  | .sci _ mant _ => decide (mant < 1000000)
+  | .sci _ d mant _ => decide (mant < 10 ^ (d + 1))
   | _ => true
 
 def RefTable.fits (t : RefTable) : Bool :=
-  headerOk t.names && !hasDup t.names && t.names.length == t.cols.length
+  headerOk t.hw t.names && !hasDup t.names && t.names.length == t.cols.length
     && t.rows.all (fun r => r.all cellOk && fitsRow t.cols (r.map renderCell))
 
 /-! ### title line -/
 
 structure TitleSpec where
-  number : Nat
   method : Str
   design : Option Str
   goal : Option Str
@@ -92,9 +93,13 @@ def optPart (pre : String) (o : Option Str) (post : String) : Str :=
   | some s => pre.toList ++ s ++ post.toList
   | none => []
 
-/-- `TABLE NO.` + number in 6 characters + `: method[: design]: [Goal Function=goal: ]Problem=…`. -/
-def renderTitle (t : TitleSpec) : Str :=
-  tableNoPrefix ++ padLeft 6 (natDigits t.number) ++ ": ".toList ++ t.method
+/-- `TABLE NO.` + the table number right justified in `w` characters (6 in ext/phi/cov files,
+    3 in $TABLE output). -/
+def renderTitleNo (w n : Nat) : Str := tableNoPrefix ++ padLeft w (natDigits n)
+
+/-- `: method[: design]: [Goal Function=goal: ]Problem=… Iteration2=…` (ext/phi/cov files). -/
+def renderTitleRest (t : TitleSpec) : Str :=
+  ": ".toList ++ t.method
     ++ optPart ": " t.design "" ++ ": ".toList ++ optPart "Goal Function=" t.goal ": "
     ++ "Problem=".toList ++ natDigits (t.nums.getD 0 0)
     ++ " Subproblem=".toList ++ natDigits (t.nums.getD 1 0)
